@@ -28,6 +28,13 @@
 //!                  k = 6..=17, and (authority, module) pairs whose SUM crosses 2^8 /
 //!                  2^16 while each part stays below; groups with flips, child, parent
 //!                  and short URIs; all pair / join / unary laws.
+//!  9. history.independent / history.recycled_buffer : SEQUENCES - every subject after
+//!                  every predecessor on a new OS thread must observe what it observes as
+//!                  the first evaluation of a thread; a predecessor's buffer recycled for
+//!                  the subject (same address and length) must parse like from_slice.
+//! 10. ownership : every operation under 11 ways of owning the octets (sole, live clone,
+//!                  views into larger buffers, static, ...); co-owners stay unchanged.
+//! 11. display.parameters : width / alignment / fill / flags / precision specs.
 //!  "equal => same hash" is judged under three hashers everywhere: std DefaultHasher,
 //!  an FxHash-style hasher, and a digest of the exact sequence of Hasher::write calls.
 //!
@@ -627,7 +634,107 @@ fn https_joins(ctx: &Ctx, sp: &Space, hj: &[HU], args: &[Vec<u8>]) {
     });
 }
 
+
+// ------------------------------------------- history / ownership / call parameters
+
+/// Everything observable about a parse result, every accessor under its own guard (a value
+/// with stale indexes must show up as a different observation, not take the explorer down).
+fn obs_rsync(r: Result<Result<Rsync, rpki::uri::Error>, String>) -> String {
+    match r {
+        Err(p) => format!("PANIC {p}"),
+        Ok(Err(e)) => format!("err {e:?}"),
+        Ok(Ok(u)) => {
+            let g = |f: &dyn Fn() -> String| guard(f).unwrap_or_else(|p| format!("PANIC {p}"));
+            format!("ok text={} authority={} module={} path={} dir={} hash={} parent={} join={} rel={}",
+                g(&|| u.as_str().to_string()), g(&|| u.authority().to_string()), g(&|| u.module_name().to_string()), g(&|| u.path().to_string()),
+                g(&|| u.path_is_dir().to_string()), g(&|| format!("{:?}", h(&u))), g(&|| format!("{:?}", u.parent().map(|p| p.to_string()))),
+                g(&|| format!("{:?}", u.join(b"x/y").map(|p| p.to_string()))), g(&|| format!("{:?}", Rsync::from_slice(u.module().as_bytes()).ok().and_then(|m| u.relative_to(&m).map(|x| x.to_string())))))
+        }
+    }
+}
+fn obs_https(r: Result<Result<Https, rpki::uri::Error>, String>) -> String {
+    match r {
+        Err(p) => format!("PANIC {p}"),
+        Ok(Err(e)) => format!("err {e:?}"),
+        Ok(Ok(u)) => {
+            let g = |f: &dyn Fn() -> String| guard(f).unwrap_or_else(|p| format!("PANIC {p}"));
+            format!("ok text={} authority={} path={} dir={} hash={} parent={} join={}",
+                g(&|| u.as_str().to_string()), g(&|| u.authority().to_string()), g(&|| u.path().to_string()), g(&|| u.path_is_dir().to_string()),
+                g(&|| format!("{:?}", h(&u))), g(&|| format!("{:?}", u.parent().map(|p| p.to_string()))), g(&|| format!("{:?}", u.join(b"x/y").map(|p| p.to_string()))))
+        }
+    }
+}
+
+/// Runs `f` first thing on a brand-new OS thread (no thread-local of the library has been touched).
+fn fresh_thread<T: Send>(f: impl FnOnce() -> T + Send) -> Result<T, String> {
+    std::thread::scope(|sc| sc.spawn(f).join()).map_err(|_| "the evaluation thread died".to_string())
+}
+
+type Eval = Box<dyn Fn() -> String + Send + Sync>;
+
+/// Ways to come to own the octets of a URI. Returns the Bytes to parse and what else must stay alive / unchanged.
+const OWNER_FORMS: [&str; 11] = ["sole owner", "live clone", "clone dropped before", "to_bytes() result alive", "view at offset 0 of a larger buffer",
+    "view in the middle of a larger buffer", "view at the end of a larger buffer", "view of a larger buffer that was dropped", "from_static", "frozen BytesMut", "Vec with spare capacity"];
+fn owner_bytes(form: usize, t: &[u8]) -> (bytes::Bytes, Option<bytes::Bytes>) {
+    use bytes::{Bytes, BytesMut};
+    match form {
+        4 => { let mut b = t.to_vec(); b.extend_from_slice(b"/tail"); let big = Bytes::from(b); (big.slice(..t.len()), Some(big)) }
+        5 => { let mut b = b"xy".to_vec(); b.extend_from_slice(t); b.extend_from_slice(b"zz"); let big = Bytes::from(b); (big.slice(2..2 + t.len()), Some(big)) }
+        6 => { let mut b = b"xy".to_vec(); b.extend_from_slice(t); let big = Bytes::from(b); (big.slice(2..), Some(big)) }
+        7 => { let mut b = b"xy".to_vec(); b.extend_from_slice(t); b.extend_from_slice(b"zz"); let big = Bytes::from(b); (big.slice(2..2 + t.len()), None) }
+        8 => (Bytes::from_static(Box::leak(t.to_vec().into_boxed_slice())), None),
+        9 => (BytesMut::from(t).freeze(), None),
+        10 => { let mut v = Vec::with_capacity(t.len() + 16); v.extend_from_slice(t); (Bytes::from(v), None) }
+        _ => (Bytes::copy_from_slice(t), None),
+    }
+}
+
+/// Model of `Display` under a format spec for a type whose text form is `canon`: the spec is either ignored or applied
+/// to the WHOLE text (padding to `width` with one fill character; for text-carrying types a precision cuts the whole
+/// text to its first `prec` characters). Anything else (e.g. padding or cutting a part of the text) is a different value's text.
+fn display_spec_ok(out: &str, canon: &str, width: Option<usize>, prec: Option<usize>, align: char, may_truncate: bool) -> bool {
+    if out == canon { return true }
+    let mut cores: Vec<String> = vec![canon.to_string()];
+    if let (true, Some(p)) = (may_truncate, prec) { cores.push(canon.chars().take(p).collect()) }
+    for core in cores {
+        let want_len = width.unwrap_or(0).max(core.chars().count());
+        if out.chars().count() != want_len { continue }
+        for fill in [' ', '0'] {
+            for (pos, _) in out.match_indices(core.as_str()).chain(if core.is_empty() { vec![(0usize, "")] } else { vec![] }) {
+                let (l, r) = (&out[..pos], &out[pos + core.len()..]);
+                if !l.chars().all(|c| c == fill) || !r.chars().all(|c| c == fill) { continue }
+                let (nl, nr) = (l.chars().count(), r.chars().count());
+                let placed = match align { '<' => nl == 0, '>' => nr == 0, '^' => nl <= nr && nr - nl <= 1, _ => nl == 0 || nr == 0 };
+                if placed { return true }
+            }
+        }
+    }
+    false
+}
+/// All renderings of `v` under width / alignment / fill / flag / precision specs. (spec text, output, width, precision, alignment)
+fn display_renderings(v: &dyn std::fmt::Display, w: usize, p: usize) -> Vec<(String, String, Option<usize>, Option<usize>, char)> {
+    vec![
+        (format!("{{:{w}}}"), format!("{:1$}", v, w), Some(w), None, ' '),
+        (format!("{{:<{w}}}"), format!("{:<1$}", v, w), Some(w), None, '<'),
+        (format!("{{:^{w}}}"), format!("{:^1$}", v, w), Some(w), None, '^'),
+        (format!("{{:>{w}}}"), format!("{:>1$}", v, w), Some(w), None, '>'),
+        (format!("{{:0<{w}}}"), format!("{:0<1$}", v, w), Some(w), None, '<'),
+        (format!("{{:0^{w}}}"), format!("{:0^1$}", v, w), Some(w), None, '^'),
+        (format!("{{:0>{w}}}"), format!("{:0>1$}", v, w), Some(w), None, '>'),
+        (format!("{{:0{w}}}"), format!("{:01$}", v, w), Some(w), None, ' '),
+        (format!("{{:#{w}}}"), format!("{:#1$}", v, w), Some(w), None, ' '),
+        (format!("{{:+{w}}}"), format!("{:+1$}", v, w), Some(w), None, ' '),
+        (format!("{{:#}}"), format!("{:#}", v), None, None, ' '),
+        (format!("{{:+}}"), format!("{:+}", v), None, None, ' '),
+        (format!("{{:.{p}}}"), format!("{:.1$}", v, p), None, Some(p), ' '),
+        (format!("{{:{w}.{p}}}"), format!("{:1$.2$}", v, w, p), Some(w), Some(p), ' '),
+        (format!("{{:>{w}.{p}}}"), format!("{:>1$.2$}", v, w, p), Some(w), Some(p), '>'),
+        (format!("{{:0^{w}.{p}}}"), format!("{:0^1$.2$}", v, w, p), Some(w), Some(p), '^'),
+    ]
+}
+
 // --------------------------------------------------------------------- main
+
 
 fn main() {
     let t0 = std::time::Instant::now();
@@ -638,7 +745,7 @@ fn main() {
     // bounds per tier (tail lengths over the 7-symbol alphabet)
     let max_tail: u32 = ctx.tier.pick(7, 9);          // parse space
     let pair_r: usize = ctx.tier.pick(6, 7);           // rsync pairs
-    let pair_h: usize = ctx.tier.pick(4, 6);           // https pairs
+    let pair_h: usize = ctx.tier.pick(4, 5);           // https pairs
     let join_r: usize = ctx.tier.pick(5, 6);           // rsync join bases
     let join_h: usize = ctx.tier.pick(4, 5);           // https join bases
     let arg_len: u32 = ctx.tier.pick(4, 5);            // join arguments
@@ -1015,7 +1122,7 @@ fn main() {
     // being (own allocation, view into a shared buffer, result of another
     // operation, deserialised). Differential against the from_str pair, whose
     // answers are checked against the text model in rsync.pairs / https.pairs.
-    let form_r: usize = ctx.tier.pick(5, 6);
+    let form_r: usize = 5;
     let form_h: usize = ctx.tier.pick(3, 4);
     let sp = ctx.space("rsync.forms",
         "every accepted rsync URI up to the stated tail length in every construction form (from_str, from_string, TryFrom<String>, from_slice, from_bytes on an own allocation, from_bytes on a view inside a larger buffer, clone, unshare, serde_json from str / from Value, result of parent(), result of join(), result of path_into_dir()); all ordered pairs of texts x all pairs of forms, plus - when one text is an octet prefix of the other - both operands as from_bytes views of ONE buffer starting at the same address (at the allocation start and at an offset) and as URI / its own parent() chain: ==, relative_to, is_parent_of and the per-value accessors, hash, parent, join must equal the answers for the from_str operands; non-trivial = (pair, form pair) combinations in which the from_str answer is not the trivial one (equal, Some, or parent) + all shared-buffer pairs");
@@ -1340,6 +1447,247 @@ fn main() {
         sp.set("groups", json!(big.len())); sp.set("members", json!(n_members));
         sp.sample_str(|| "https://{a:65536}/d/f vs HTTPS://{a:65536}/d/f : equal, same write-call sequence into any Hasher".into());
         sp.done(true, &format!("{} groups: 3 quantities x lengths 2^k-1..2^k+1 (k = 6..=17); all ordered pairs and joins within each group", big.len()));
+        lap(&t0, &sp.name);
+    }
+
+    // ---------------------------------------------------------------- 9. history
+    // What happened before on this thread must not matter. Every sequence runs on its own new OS
+    // thread; the reference is the same evaluation as the very first thing on another new thread.
+    let sp = ctx.space("history.independent",
+        "subjects: both parsers (from_bytes on an own allocation, from_slice, from_str, serde) on accepted and rejected texts (one per rejection stage: forbidden octet, wrong scheme, missing module, empty segment, dot segment; short and 1 KiB long), join / parent / relative_to / path_into_dir / == / hash evaluations; predecessors: every subject plus repeated failures of each stage, the OTHER scheme's parser on the subject's own text, long URIs, failed joins; for every predecessor (thorough: every ordered pair of predecessors) a new OS thread runs the predecessor(s), then every subject in order and in reverse order; each observation must equal the one made first thing on a thread of its own; non-trivial = (sequence, subject) evaluations whose predecessor and subject differ");
+    {
+        let long_r = { let mut v = b"rsync://host/module/".to_vec(); v.extend(pattern(1024, true)); v };
+        let long_h = { let mut v = b"https://host/".to_vec(); v.extend(pattern(1024, true)); v };
+        let texts: Vec<Vec<u8>> = vec![b"rsync://host/module/".to_vec(), b"rsync://host/module/a/b".to_vec(), b"RSYNC://Host/Module/a/b/".to_vec(), b"rsync://host/module/a b".to_vec(),
+            b"rsync://host/module//a".to_vec(), b"rsync://host/module/../a".to_vec(), b"rsync://host/".to_vec(), b"rsync://host/module".to_vec(), b"https://host/a/b".to_vec(), b"HTTPS://Host".to_vec(),
+            b"https://host/a b".to_vec(), b"https://ho\x7fst/ab".to_vec(), b"https://host/a\xffb".to_vec(), b"http://host/a/b".to_vec(), b"".to_vec(), long_r, long_h];
+        let mut subjects: Vec<(String, Eval)> = Vec::new();
+        for t in &texts {
+            let name = s(t);
+            let t1 = t.clone(); subjects.push((format!("Rsync::from_bytes({name:?})"), Box::new(move || obs_rsync(guard(|| Rsync::from_bytes(bytes::Bytes::copy_from_slice(&t1)))))));
+            let t1 = t.clone(); subjects.push((format!("Https::from_bytes({name:?})"), Box::new(move || obs_https(guard(|| Https::from_bytes(bytes::Bytes::copy_from_slice(&t1)))))));
+            let t1 = t.clone(); subjects.push((format!("Rsync::from_slice({name:?})"), Box::new(move || obs_rsync(guard(|| Rsync::from_slice(&t1))))));
+            let t1 = t.clone(); subjects.push((format!("Https::from_slice({name:?})"), Box::new(move || obs_https(guard(|| Https::from_slice(&t1))))));
+            if let Ok(st) = String::from_utf8(t.clone()) {
+                let s1 = st.clone(); subjects.push((format!("serde Rsync {name:?}"), Box::new(move || format!("{:?}", guard(|| serde_json::from_value::<Rsync>(serde_json::Value::String(s1.clone())).map(|u| u.to_string()).map_err(|_| ()))))));
+                let s1 = st.clone(); subjects.push((format!("serde Https {name:?}"), Box::new(move || format!("{:?}", guard(|| serde_json::from_value::<Https>(serde_json::Value::String(s1.clone())).map(|u| u.to_string()).map_err(|_| ()))))));
+            }
+        }
+        for (base, arg) in [("rsync://host/module/a", &b"b/c"[..]), ("rsync://host/module/a", b"../c"), ("rsync://host/module/a", b"b c"), ("rsync://host/module/", b"/x"), ("rsync://host/module/a/", b"")] {
+            subjects.push((format!("Rsync({base}).join({:?})", s(arg)), Box::new(move || obs_rsync(guard(|| Rsync::from_slice(base.as_bytes()).and_then(|u| u.join(arg)))))));
+        }
+        for (base, arg) in [("https://host", &b"x"[..]), ("https://host/a", b"b/"), ("https://host/a/", b"b c")] {
+            subjects.push((format!("Https({base}).join({:?})", s(arg)), Box::new(move || obs_https(guard(|| Https::from_slice(base.as_bytes()).and_then(|u| u.join(arg)))))));
+        }
+        for (a, b) in [("rsync://host/module/a/b", "rsync://HOST/module/a/"), ("rsync://host/module/a/b", "rsync://host/Module/a/"), ("rsync://host/module/ab", "rsync://host/module/a")] {
+            subjects.push((format!("relative_to({a}, {b})"), Box::new(move || format!("{:?}", guard(|| { let (x, y) = (Rsync::from_slice(a.as_bytes()).unwrap(), Rsync::from_slice(b.as_bytes()).unwrap());
+                (x.relative_to(&y).map(|p| p.to_string()), y.is_parent_of(&x), x == y, h(&x) == h(&y)) })))));
+        }
+        for base in ["rsync://host/module/a/b", "rsync://host/module/a/b/"] {
+            subjects.push((format!("path_into_dir({base}) with a live clone"), Box::new(move || { let r = guard(|| { let mut u = Rsync::from_slice(base.as_bytes())?; let c = u.clone(); u.path_into_dir(); drop(c); Ok(u) }); obs_rsync(r) })));
+        }
+        // predecessors: all subjects + dedicated ones
+        let mut preds: Vec<(String, Eval)> = Vec::new();
+        for (i, (n, _)) in subjects.iter().enumerate() { let _ = i; preds.push((n.clone(), Box::new(|| String::new()))) }   // placeholders, run through `subjects[i]`
+        let n_subj = subjects.len();
+        for t in &texts { for reps in [2usize, 5] {
+            let t1 = t.clone(); preds.push((format!("{reps} x both parsers on one Bytes of {:?}", s(t)), Box::new(move || { for _ in 0..reps { let b = bytes::Bytes::copy_from_slice(&t1);
+                let _ = guard(|| Rsync::from_bytes(b.clone())); let _ = guard(|| Https::from_bytes(b.clone())); let _ = guard(|| Rsync::from_bytes(b.clone())); } String::new() })));
+        }}
+        let run_pred = |k: usize| { if k < n_subj { let _ = (subjects[k].1)(); } else { let _ = (preds[k].1)(); } };
+        let baseline: Vec<String> = (0..n_subj).map(|i| fresh_thread(|| (subjects[i].1)()).unwrap_or_else(|e| e)).collect();
+        let np = preds.len();
+        let seqs: Vec<Vec<usize>> = if ctx.tier.is_thorough() { (0..np).flat_map(|a| (0..np).map(move |b| vec![a, b])).chain((0..np).map(|a| vec![a])).collect() } else { (0..np).map(|a| vec![a]).collect() };
+        // sequences are independent of each other: run them 16 at a time, each on its own thread
+        for chunk in seqs.chunks(16) {
+            let outs: Vec<Result<Vec<(usize, String)>, String>> = std::thread::scope(|sc| {
+                let (rp, subj) = (&run_pred, &subjects);
+                let hs: Vec<_> = chunk.iter().map(|seq| sc.spawn(move || { for &k in seq { rp(k) }
+                    let mut o: Vec<(usize, String)> = (0..n_subj).map(|i| (i, (subj[i].1)())).collect();
+                    o.extend((0..n_subj).rev().map(|i| (i, (subj[i].1)()))); o })).collect();
+                hs.into_iter().map(|h| h.join().map_err(|_| "sequence thread died".to_string())).collect()
+            });
+            for (seq, out) in chunk.iter().zip(outs) {
+                let pname = seq.iter().map(|&k| preds[k].0.clone()).collect::<Vec<_>>().join(" ; then ");
+                match out {
+                    Err(e) => ctx.fail("C12.history.independent", format!("after [{pname}]"), e),
+                    Ok(o) => for (pos, (i, got)) in o.iter().enumerate() {
+                        sp.eval(); if !seq.contains(i) { sp.nontrivial(1) }
+                        if *got != baseline[*i] {
+                            ctx.fail("C12.history.independent", format!("after [{pname}] (subject #{pos} of the thread): {}", subjects[*i].0), format!("observed {}, but {} as the first evaluation of a new thread", rpki_verif::trunc(got, 300), rpki_verif::trunc(&baseline[*i], 300)));
+                        }
+                        sp.outcome(if got.starts_with("ok") || got.contains("Ok(") { "subject-accepted" } else { "subject-rejected" });
+                    }
+                }
+            }
+        }
+        sp.set("subjects", json!(n_subj)); sp.set("predecessors", json!(np)); sp.set("sequences", json!(seqs.len()));
+        sp.sample_str(|| "after [Rsync::from_bytes(\"https://host/a/b\")]: Https::from_bytes(\"https://host/a b\") must still be rejected".into());
+        sp.done(true, &format!("{} sequences ({}) x {} subjects forwards and backwards, one OS thread per sequence", seqs.len(), if ctx.tier.is_thorough() { "all single predecessors and ordered pairs" } else { "all single predecessors" }, n_subj));
+        lap(&t0, &sp.name);
+    }
+
+    // a predecessor's BUFFER recycled for the subject: same address, same length, other octets
+    let sp = ctx.space("history.recycled_buffer",
+        "for every (predecessor text, subject text of the same length: the predecessor with one octet replaced by SPACE / DEL / 0x80 / 'x' at the first, a middle and the last position, and the predecessor itself) x predecessor parser {Rsync, Https} x subject parser {Rsync, Https} x recycling route {BytesMut: put, split, freeze, parse, reserve, put again; clone parsed, try_into_mut, patch, freeze; Vec dropped and a Vec of the same size allocated}: on a new OS thread the predecessor parses its Bytes, the buffer is recycled and from_bytes parses the subject octets at (normally) the same address and length; the observation must equal from_slice on the same octets; non-trivial = sequences whose subject octets differ from the predecessor's (for the two Bytes routes the recycled buffer has the predecessor's address by construction, recorded as an outcome)");
+    {
+        use bytes::{BufMut, Bytes, BytesMut};
+        let ptexts: Vec<&[u8]> = vec![b"https://host/a/b", b"rsync://host/module/a", b"https://host", b"rsync://host/m/", b"http://host/abc", b"rsync://host//a", b"https://ho st/a", b"HTTPS://HOST/A/B", b"RSYNC://h/m/a/b/c"];
+        let mut cases: Vec<(Vec<u8>, Vec<u8>, u8, u8, u8)> = Vec::new();
+        for p in &ptexts {
+            let mut subs: Vec<Vec<u8>> = vec![p.to_vec()];
+            for pos in [8usize.min(p.len() - 1), p.len() / 2 + 2, p.len() - 1] { for b in [b' ', 0x7f, 0x80, b'x'] { let mut v = p.to_vec(); v[pos.min(p.len() - 1)] = b; subs.push(v) } }
+            // the same tail under the other scheme (both scheme prefixes have 8 octets)
+            if p.len() >= 8 { let mut v = p.to_vec(); let other: &[u8] = if p[..8].eq_ignore_ascii_case(b"rsync://") { b"https://" } else { b"rsync://" }; v[..8].copy_from_slice(other); subs.push(v) }
+            subs.sort(); subs.dedup();
+            for sub in subs { for pp in 0..2u8 { for spr in 0..2u8 { for route in 0..3u8 { cases.push((p.to_vec(), sub.clone(), pp, spr, route)) } } } }
+        }
+        let parse = |which: u8, b: Bytes| -> String { if which == 0 { obs_rsync(guard(|| Rsync::from_bytes(b))) } else { obs_https(guard(|| Https::from_bytes(b))) } };
+        let parse_slice = |which: u8, b: &[u8]| -> String { if which == 0 { obs_rsync(guard(|| Rsync::from_slice(b))) } else { obs_https(guard(|| Https::from_slice(b))) } };
+        for chunk in cases.chunks(16) {
+            let outs: Vec<Result<(String, bool), String>> = std::thread::scope(|sc| {
+                let hs: Vec<_> = chunk.iter().map(|(p, sub, pp, spr, route)| sc.spawn(move || {
+                    match route {
+                        0 => { let mut buf = BytesMut::with_capacity(p.len()); buf.put_slice(p); let b1 = buf.split().freeze(); let addr = b1.as_ptr() as usize;
+                               let _ = parse(*pp, b1); buf.reserve(sub.len()); buf.put_slice(sub); let b2 = buf.split().freeze(); let same = b2.as_ptr() as usize == addr; (parse(*spr, b2), same) }
+                        1 => { let b1 = Bytes::from(p.clone()); let addr = b1.as_ptr() as usize; let _ = parse(*pp, b1.clone());
+                               match b1.try_into_mut() { Ok(mut m) => { m.copy_from_slice(sub); let b2 = m.freeze(); let same = b2.as_ptr() as usize == addr; (parse(*spr, b2), same) }
+                                   Err(_) => (parse(*spr, Bytes::copy_from_slice(sub)), false) } }
+                        _ => { let b1 = Bytes::from(p.clone()); let addr = b1.as_ptr() as usize; let _ = parse(*pp, b1); let b2 = Bytes::from(sub.clone()); let same = b2.as_ptr() as usize == addr; (parse(*spr, b2), same) }
+                    }
+                })).collect();
+                hs.into_iter().map(|h| h.join().map_err(|_| "sequence thread died".to_string())).collect()
+            });
+            for ((p, sub, pp, spr, route), out) in chunk.iter().zip(outs) {
+                sp.eval();
+                let names = ["Rsync", "Https"]; let routes = ["BytesMut put/split/freeze, reserve, put again", "try_into_mut, overwrite, freeze", "drop, allocate the same size"];
+                let wit = format!("{}::from_bytes(hex {}) ; recycle [{}] ; {}::from_bytes(hex {})", names[*pp as usize], rpki_verif::hex(p), routes[*route as usize], names[*spr as usize], rpki_verif::hex(sub));
+                match out {
+                    Err(e) => ctx.fail("C12.history.recycled_buffer", wit, e),
+                    Ok((got, same)) => {
+                        // (whether the allocator hands the same block out again is not under our control and is not counted)
+                        if sub != p { sp.nontrivial(1) }
+                        if *route == 2 { sp.outcome("allocator-reuse-attempted") } else if same { sp.outcome("same-address-and-length") } else { sp.outcome("recycling-gave-another-address") }
+                        let want = fresh_thread(|| parse_slice(*spr, sub)).unwrap_or_else(|e| e);
+                        if got != want { ctx.fail("C12.history.recycled_buffer", wit, format!("observed {}, but from_slice on the same octets gives {}", rpki_verif::trunc(&got, 300), rpki_verif::trunc(&want, 300))) }
+                    }
+                }
+            }
+        }
+        sp.set("sequences", json!(cases.len()));
+        sp.sample_str(|| "Rsync::from_bytes(\"https://host/a/b\") ; try_into_mut, overwrite, freeze ; Https::from_bytes(\"https://host/a b\") : must be rejected like from_slice".into());
+        sp.done(true, &format!("{} sequences, one OS thread each", cases.len()));
+        lap(&t0, &sp.name);
+    }
+
+    // -------------------------------------------------------------- 10. ownership
+    let own_r: usize = ctx.tier.pick(5, 6);
+    let own_h: usize = ctx.tier.pick(3, 4);
+    let sp = ctx.space("ownership",
+        "every accepted rsync / https URI up to the stated tail length x 11 ways of owning its octets (sole owner, live clone, clone dropped before, to_bytes() result alive, view at offset 0 / middle / end of a larger buffer, view of a dropped larger buffer, from_static, frozen BytesMut, Vec with spare capacity) x every &mut self / self / &self operation (path_into_dir, unshare, join x 3 arguments, parent, relative_to its module, clone, to_bytes, to_string): the full observation of the result must equal the sole-owner result, the result must be a valid URI that re-parses to itself, and every co-owner (clone, larger buffer) must be unchanged; non-trivial = (URI, form, operation) combinations with a co-owner alive");
+    {
+        let rt = upto(&r_by_len, own_r); let ht = upto(&h_by_len, own_h);
+        const OPS: [&str; 9] = ["path_into_dir", "unshare", "join(x)", "join(x/y/)", "join()", "parent", "relative_to(module)", "clone", "to_bytes"];
+        batched(&ctx, rt.len() + ht.len(), 512, |i, fl| {
+            let is_r = i < rt.len();
+            let t: &Vec<u8> = if is_r { &rt[i] } else { &ht[i - rt.len()] };
+            let mut nt = 0u64; let mut ev = 0u64; let mut oc: Oc = BTreeMap::new();
+            for (op, opname) in OPS.iter().enumerate() {
+                if !is_r && (op == 6) { continue }
+                let mut reference: Option<String> = None;
+                for (form, fname) in OWNER_FORMS.iter().enumerate() {
+                    ev += 1;
+                    let wit = || format!("uri={} owned as [{fname}] op={opname}", s(t));
+                    let r = guard(|| -> Result<(String, bool), String> {
+                        let (b, keep) = owner_bytes(form, t);
+                        let keep_copy = keep.as_ref().map(|k| k.to_vec());
+                        if is_r {
+                            let mut u = Rsync::from_bytes(b).map_err(|e| format!("the form is not accepted: {e}"))?;
+                            let clone = match form { 1 => Some(u.clone()), 2 => { drop(u.clone()); None } _ => None };
+                            let held = if form == 3 { Some(u.to_bytes()) } else { None };
+                            let res: Result<Rsync, rpki::uri::Error> = match op {
+                                0 => { u.path_into_dir(); Ok(u.clone()) } 1 => { u.unshare(); Ok(u.clone()) }
+                                2 => u.join(b"x"), 3 => u.join(b"x/y/"), 4 => u.join(b""),
+                                5 => u.parent().ok_or(rpki::uri::Error::BadUri),
+                                6 => { let m = Rsync::from_slice(u.module().as_bytes()).map_err(|e| e.to_string())?; let rel = u.relative_to(&m).map(|x| x.to_string()); return finish(format!("rel={rel:?} parent_of={}", m.is_parent_of(&u)), &u, clone.as_ref().map(|c| obs_rsync(Ok(Ok(c.clone())))), held, keep, keep_copy, t, true) }
+                                7 => Ok(u.clone()), _ => Rsync::from_bytes(u.to_bytes()),
+                            };
+                            if let Ok(r) = &res { valid_rsync(r).map_err(|e| format!("result: {e}"))? }
+                            // for the mutating operations `u` is the result; for the others `u` must be unchanged
+                            let after = obs_rsync(Ok(Ok(u.clone())));
+                            let clone_obs = clone.as_ref().map(|c| obs_rsync(Ok(Ok(c.clone()))));
+                            return finish(format!("{} | self afterwards: {after}", obs_rsync(Ok(res))), &u, clone_obs, held, keep, keep_copy, t, true);
+                            fn finish(o: String, _u: &Rsync, clone_obs: Option<String>, held: Option<bytes::Bytes>, keep: Option<bytes::Bytes>, keep_copy: Option<Vec<u8>>, t: &[u8], is_r: bool) -> Result<(String, bool), String> {
+                                let fresh = if is_r { obs_rsync(Ok(Rsync::from_slice(t))) } else { String::new() };
+                                if let Some(c) = &clone_obs { if *c != fresh { return Err(format!("the clone taken before the operation now observes {c}, a fresh parse {fresh}")) } }
+                                if let Some(hb) = &held { if hb.as_ref() != t { return Err("the to_bytes() result taken before the operation changed".into()) } }
+                                if let (Some(k), Some(kc)) = (&keep, &keep_copy) { if k.as_ref() != &kc[..] { return Err("the larger buffer the URI is a view of changed".into()) } }
+                                Ok((o, clone_obs.is_some() || held.is_some() || keep.is_some()))
+                            }
+                        } else {
+                            let mut u = Https::from_bytes(b).map_err(|e| format!("the form is not accepted: {e}"))?;
+                            let clone = match form { 1 => Some(u.clone()), 2 => { drop(u.clone()); None } _ => None };
+                            let held: Option<bytes::Bytes> = if form == 3 { Some(AsRef::<bytes::Bytes>::as_ref(&u).clone()) } else { None };
+                            let res: Result<Https, rpki::uri::Error> = match op {
+                                0 => { u.path_into_dir(); Ok(u.clone()) } 1 => { u.unshare(); Ok(u.clone()) }
+                                2 => u.join(b"x"), 3 => u.join(b"x/y/"), 4 => u.join(b""),
+                                5 => u.parent().ok_or(rpki::uri::Error::BadUri),
+                                7 => Ok(u.clone()), _ => Https::from_bytes(AsRef::<bytes::Bytes>::as_ref(&u).clone()),
+                            };
+                            if let Ok(r) = &res { valid_https(r).map_err(|e| format!("result: {e}"))? }
+                            let after = obs_https(Ok(Ok(u.clone())));
+                            let fresh = obs_https(Ok(Https::from_slice(t)));
+                            if let Some(c) = &clone { let co = obs_https(Ok(Ok(c.clone()))); if co != fresh { return Err(format!("the clone taken before the operation now observes {co}, a fresh parse {fresh}")) } }
+                            if let Some(hb) = &held { if hb.as_ref() != &t[..] { return Err("the Bytes taken before the operation changed".into()) } }
+                            if let (Some(k), Some(kc)) = (&keep, &keep_copy) { if k.as_ref() != &kc[..] { return Err("the larger buffer the URI is a view of changed".into()) } }
+                            Ok((format!("{} | self afterwards: {after}", obs_https(Ok(res))), clone.is_some() || held.is_some() || keep.is_some()))
+                        }
+                    });
+                    match r {
+                        Err(p) => fl.fail("C12.ownership", &wit, || p),
+                        Ok(Err(e)) => fl.fail("C12.ownership", &wit, || e),
+                        Ok(Ok((o, shared))) => {
+                            if shared { nt += 1 }
+                            bump(&mut oc, if shared { "co-owner-alive" } else { "no-co-owner" });
+                            match &reference { None => reference = Some(o), Some(want) => if o != *want { fl.fail("C12.ownership", &wit, || format!("observed {}, but the sole owner gives {}", rpki_verif::trunc(&o, 400), rpki_verif::trunc(want, 400))) } }
+                        }
+                    }
+                }
+            }
+            sp.evals(ev); sp.nontrivial(nt); sp.merge_outcomes(&oc);
+        });
+        sp.set("rsync_uris", json!(rt.len())); sp.set("https_uris", json!(ht.len())); sp.set("forms", json!(OWNER_FORMS)); sp.set("operations", json!(OPS));
+        sp.sample_str(|| "uri=rsync://a/a/a owned as [live clone] op=path_into_dir : result rsync://a/a/a/ as for the sole owner, the clone still rsync://a/a/a".into());
+        sp.done(true, &format!("{} rsync URIs (tail <= {own_r}) + {} https URIs (tail <= {own_h}) x 11 ownership forms x 9 operations", rt.len(), ht.len()));
+        lap(&t0, &sp.name);
+    }
+
+    // ------------------------------------------------------- 11. call parameters
+    let sp = ctx.space("display.parameters",
+        "Display of every accepted rsync / https URI (tails as in `ownership`) and of both Scheme values under width 0..=40 x {default, <, ^, >} x fill {SPACE, 0} x flags {#, +, 0} and precision 0..=40 (alone and combined with a width): the output must be the text itself or the WHOLE text padded with one fill character to the width (a precision may cut the whole text to its first N characters, as str does; the spec must never be applied to a part of the text), so that trimming the fill gives back a text that parses to the same URI; non-trivial = renderings that differ from the plain text");
+    {
+        let rt = upto(&r_by_len, own_r); let ht = upto(&h_by_len, own_h);
+        batched(&ctx, rt.len() + ht.len() + 2, 256, |i, fl| {
+            let (canon, v): (String, Box<dyn std::fmt::Display>) = if i < rt.len() { let u = Rsync::from_slice(&rt[i]).unwrap(); (s(&rt[i]), Box::new(u)) }
+                else if i < rt.len() + ht.len() { let t = &ht[i - rt.len()]; (s(t), Box::new(Https::from_slice(t).unwrap())) }
+                else if i == rt.len() + ht.len() { ("rsync://".into(), Box::new(Scheme::Rsync)) } else { ("https://".into(), Box::new(Scheme::Https)) };
+            let (mut ev, mut nt) = (0u64, 0u64); let mut oc: Oc = BTreeMap::new();
+            for w in 0..=40usize {
+                let p = w;
+                match guard(|| display_renderings(&*v, w, p)) {
+                    Err(pn) => fl.fail("C12.display.parameters", &|| format!("value={canon} width/precision={w}"), || pn),
+                    Ok(rs) => for (spec, out, width, prec, align) in rs {
+                        ev += 1; if out != canon { nt += 1; bump(&mut oc, "padded-or-cut") } else { bump(&mut oc, "plain") }
+                        if !display_spec_ok(&out, &canon, width, prec, align, true) {
+                            fl.fail("C12.display.parameters", &|| format!("value={canon} spec={spec}"), || format!("renders as {out:?}: neither the text nor the whole text padded / cut"));
+                        }
+                    }
+                }
+            }
+            sp.evals(ev); sp.nontrivial(nt); sp.merge_outcomes(&oc);
+        });
+        sp.sample_str(|| "format!(\"{:>16}\", https://a/b) = \"     https://a/b\"; format!(\"{:.9}\", https://a/b) = \"https://a\" (whole-text cut, as for str); Rsync ignores both".into());
+        sp.done(true, &format!("{} values x 41 widths/precisions x 16 format specs", rt.len() + ht.len() + 2));
         lap(&t0, &sp.name);
     }
     let suppressed = SUPPRESSED.load(AtomicOrdering::Relaxed);
